@@ -666,7 +666,7 @@ def step (d : Drv) (cmd : List Sexp) : Drv × String :=
           | .sql =>
             let idx := d.sqlSt.tables.length
             let name := s!"att{idx}"
-            let pay : SqlPayload := { frm := .table name 0 idx, avail := r.columns.map (fun t => (t, SqlExpr.col name t)) }
+            let pay : SqlPayload := tablePayload name 0 idx r.columns
             ({ d with sqlSt := { d.sqlSt with tables := d.sqlSt.tables ++ [rowsOf d r],
                                               payloads := (oid, pay) :: d.sqlSt.payloads } }, "ok attached")
   -- (process rN rM): Processor.process
@@ -695,7 +695,11 @@ def step (d : Drv) (cmd : List Sexp) : Drv × String :=
       match sqlRun d.sqlSt d.store r with
       | .inl msg => (d, msg)
       | .inr (out, _) =>
-        (d, s!"ok rows={showRows d.env.tags out.rows} total={showBool out.total} det={showBool out.det}")
+        -- `ready`: the conformed tree meets the decidable hypotheses of the compile-correctness theorem
+        let ready := match conform d.store defaultFuel r with
+          | .ok c => (c.get r).structReady d.sqlSt
+          | .error _ => false
+        (d, s!"ok rows={showRows d.env.tags out.rows} total={showBool out.total} det={showBool out.det} ready={showBool ready}")
   | _ => (d, "bad-command")
 where
   go (d : Drv) (n : String) (e : Engine) (cols : Cols) (rws : List (List Int)) (mn : Nat)
@@ -712,10 +716,7 @@ where
     | .sql =>
       let idx := d.sqlSt.tables.length
       let doomed := mx == some 0 && rws.isEmpty && name.startsWith "D"
-      let pay : SqlPayload :=
-        { frm := .table name oid idx,
-          wh := if doomed then [.lit false] else [],
-          avail := cols.map (fun t => (t, SqlExpr.col name t)) }
+      let pay : SqlPayload := tablePayload name oid idx cols (if doomed then [.lit false] else [])
       let d := { d with sqlSt := { d.sqlSt with tables := d.sqlSt.tables ++ [rows],
                                                 payloads := (oid, pay) :: d.sqlSt.payloads } }
       d.report n "new" (applySkip leaf {})
